@@ -23,7 +23,8 @@ def decision_paths(f, body):
     names = []
     for i in body.args():
         names.append(body.local_name(i) or 'arg%d' % i)
-    outs = sx.run(body, [SYM(nm) for nm in names])
+    from ..sym import resolve_option_returns
+    outs = resolve_option_returns(sx, sx.run(body, [SYM(nm) for nm in names]))
     return sx, names, outs
 
 
